@@ -226,6 +226,21 @@ def run(ctx):
             n = ctx.rng.choice(names)
             hist.append((f, p, names, ["hdr %s" % ctx.rng.choice(["1", "2", "3"]), x, "range " + n] + (["ref " + n] if f in HAS_REF else [])))
             ctx.count("option_survives")
+    # the same read call under changing options on ONE reader: [X, hdr n, X, hdr -, X] — a result
+    # memoised under one option must not be served under another (tables first: table_by_name
+    # cuts the table out of the sheet read under the option in force)
+    with_tables = [b for b in books if b[3]]
+    for (f, p, names, tables) in with_tables + [b for b in gen_first if not b[3]][:ctx.scale(50, 400)]:
+        if not names:
+            continue
+        v = [x for x in vocabulary(f, names, tables) if not x.startswith("hdr")]
+        v = [x for x in v if x.startswith("table ")] + [x for x in v if not x.startswith("table ")]
+        rest = v[2:]
+        ctx.rng.shuffle(rest)
+        for x in v[:2] + rest[:ctx.scale(3, 100)]:
+            for n in (["1", "2", "3", "5", "7", "12"] if x.startswith("table ") else [ctx.rng.choice(["1", "2", "3", "5", "7"])]):
+                hist.append((f, p, names, [x, "hdr " + n, x, "hdr -", x]))
+            ctx.count("same_call_two_options")
     # 1. the histories on one opened workbook each
     hl = ["h%d\topen\t%s\t%s\t%s" % (k, f, p, ";".join(ops)) for k, (f, p, names, ops) in enumerate(hist)]
     himpl = ctx.run_impl(hl)
